@@ -65,6 +65,12 @@ class Rec(NameCheckVisitor):
         return c
 
 
+def test_module_factory():
+    """the module factory of pyanalyze's own tests: it puts assert_is_value, KnownValue, ... into the namespace of the checked module"""
+    from pyanalyze.test_name_check_visitor import _make_module
+    return _make_module
+
+
 def cleanup_module(mod):
     name = mod.__name__
     sys.modules.pop(name, None)
@@ -76,13 +82,13 @@ def cleanup_module(mod):
                 del reg[k]
 
 
-def check(code, checker=None, visitor_cls=NameCheckVisitor, keep_module=False, want_tree=False, want_module=False, **kw):
+def check(code, checker=None, visitor_cls=NameCheckVisitor, keep_module=False, want_tree=False, want_module=False, module_factory=None, **kw):
     """Run the real visitor over a source string.  Returns the list of failure dicts
     (or (failures, tree) when want_tree).  Raises whatever pyanalyze raises."""
     if checker is None:
         checker = get_checker()
     tree = ast.parse(code)
-    mod = make_module(code)
+    mod = (module_factory or make_module)(code)
     try:
         with contextlib.redirect_stderr(io.StringIO()), contextlib.redirect_stdout(io.StringIO()):
             with ClassAttributeChecker(enabled=True, options=checker.options) as ac:
